@@ -777,8 +777,8 @@ def incr(
     else:
         cur_vinfo = old_vinfo._replace(**cur_cinfo._asdict())
 
-    has_tag_part = cur_vinfo.tag != "final"
-    if tag_num and not tag and not has_tag_part:
+    is_final_tag = (tag or cur_vinfo.tag) == "final"
+    if tag_num and is_final_tag:
         logger.error("Invalid arguments, non-final --tag=<tag> is needed to use --tag-num.")
         return None
 
